@@ -353,3 +353,85 @@ def rule_no_incomplete_memo(ctx, res, rule_id, module_name, what):
     if not found:
         res.holds(rule_id, module_name, 'no cache keyed by less than its '
                   'value depends on', '{} functions scanned'.format(n_funcs))
+
+
+def shared_mutable_class_state(ctx, cls):
+    """class-level mutable displays ({} / [] / set() / dict() ...) of `cls`
+    that methods mutate through the instance (self.X[k] = v, self.X.append,
+    self.X.update ...) while no method binds self.X to a fresh object:
+    one object shared by every instance of the class
+    -> [(attribute, class-level node, mutation node, method qual)]"""
+    mutable = {}
+    for st in cls.node.body:
+        if isinstance(st, ast.Assign) and len(st.targets) == 1 and \
+                isinstance(st.targets[0], ast.Name):
+            v = st.value
+            is_mut = isinstance(v, (ast.Dict, ast.List, ast.Set, ast.ListComp,
+                                    ast.DictComp, ast.SetComp)) or (
+                isinstance(v, ast.Call) and isinstance(v.func, ast.Name) and
+                v.func.id in ('dict', 'list', 'set', 'bytearray',
+                              'defaultdict', 'OrderedDict'))
+            if is_mut:
+                mutable[st.targets[0].id] = st
+    if not mutable:
+        return []
+    rebound = set()
+    muts = []
+    MUT = {'append', 'extend', 'add', 'update', 'setdefault', 'pop', 'clear',
+           'insert', 'remove', 'discard', 'popitem', '__setitem__'}
+    for f in cls.methods.values():
+        ps = f.params()
+        if not ps:
+            continue
+        me = ps[0]
+
+        def is_self_attr(e, name=None):
+            return isinstance(e, ast.Attribute) and isinstance(
+                e.value, ast.Name) and e.value.id == me and (
+                    name is None or e.attr == name)
+        for n in walk_own(f.node):
+            if isinstance(n, (ast.Assign, ast.AnnAssign)):
+                tgts = n.targets if isinstance(n, ast.Assign) else [n.target]
+                for t in tgts:
+                    if is_self_attr(t):
+                        rebound.add(t.attr)
+                    if isinstance(t, ast.Subscript) and is_self_attr(t.value) \
+                            and t.value.attr in mutable:
+                        muts.append((t.value.attr, n, f))
+            elif isinstance(n, ast.AugAssign):
+                t = n.target
+                if isinstance(t, ast.Subscript) and is_self_attr(t.value) \
+                        and t.value.attr in mutable:
+                    muts.append((t.value.attr, n, f))
+            elif isinstance(n, ast.Call) and isinstance(n.func,
+                                                        ast.Attribute) and \
+                    n.func.attr in MUT and is_self_attr(n.func.value) and \
+                    n.func.value.attr in mutable:
+                muts.append((n.func.value.attr, n, f))
+            elif isinstance(n, ast.Delete):
+                for t in n.targets:
+                    if isinstance(t, ast.Subscript) and is_self_attr(
+                            t.value) and t.value.attr in mutable:
+                        muts.append((t.value.attr, n, f))
+    return [(a, mutable[a], n, f) for (a, n, f) in muts if a not in rebound]
+
+
+def rule_instance_state(ctx, res, rule_id, cls_qual, what):
+    cls = ctx.model.cls(cls_qual)
+    hits = shared_mutable_class_state(ctx, cls)
+    seen = set()
+    for (attr, decl, node, f) in hits:
+        if attr in seen:
+            continue
+        seen.add(attr)
+        res.violation(
+            rule_id, cls.qual, '{}: mutable state belongs to the '
+            'instance'.format(attr),
+            '{}.{} is a class-level mutable object that {} modifies through '
+            'self and no method replaces it with a fresh one: every instance '
+            'of the class shares it, so {}'.format(
+                cls.name, attr, f.name, what),
+            cls.module.loc(decl), semantic=True)
+    if not hits:
+        res.holds(rule_id, cls.qual, 'mutable state is created per instance',
+                  '')
